@@ -16,6 +16,7 @@ import (
 
 	"github.com/virus-evolution/gofasta/pkg/encoding"
 	"github.com/virus-evolution/gofasta/pkg/fastaio"
+	"github.com/virus-evolution/gofasta/pkg/vhook"
 )
 
 // resultsStruct is a struct that contains information about a query sequence and its (current)
@@ -183,6 +184,7 @@ func findClosest(query fastaio.EncodedFastaRecord, measure string, cIn chan fast
 	closest.qname = query.ID
 	closest.qidx = query.Idx
 
+	vhook.Ready("closest.findClosest", closest.qidx)
 	cOut <- closest
 }
 
@@ -304,6 +306,7 @@ func Closest(query, target io.Reader, measure string, out io.Writer, threads int
 
 	for i := 0; i < nQ; i++ {
 		result := <-cResults
+		vhook.Recv("closest.Closest", result.qidx)
 		QResultsArray[result.qidx] = result
 	}
 
